@@ -658,6 +658,9 @@ pub fn stages(ctx: &Ctx) -> Vec<Stage> {
         let dt_max = (span * rng.log10(-4.0, 0.0)).max(64.0 * ulp);
         let dt_min = dt_max * if rng.chance(0.1) { 1.0 } else { rng.log10(-14.0, 0.0) };
         let tol = rng.log10(-16.0, 3.0);
+        // "no cap": an infinite maximum step is a positive step bound like any other (4 % of the cases)
+        let unbounded = i % 25 == 7;
+        let dt_max = if unbounded { f64::INFINITY } else { dt_max };
         let cfg = Cfg { t0, t1: t0 + span, dt_min, dt_max, tol };
         if !(cfg.t1 > cfg.t0 && dt_min > 0.0 && dt_min <= dt_max) {
             return;
@@ -668,6 +671,9 @@ pub fn stages(ctx: &Ctx) -> Vec<Stage> {
         let out = solve_real(solver, &cfg, &prob.y0, &prob, &opts);
         rep.eval();
         rep.count(&format!("{}/scaled_valid_configs", solver.name()), 1);
+        if unbounded {
+            rep.count(&format!("{}/scaled_valid_configs_unbounded_maximum_step", solver.name()), 1);
+        }
         if dt_min < ulp {
             rep.count(&format!("{}/scaled_valid_configs_min_step_below_time_resolution", solver.name()), 1);
         }
@@ -677,7 +683,7 @@ pub fn stages(ctx: &Ctx) -> Vec<Stage> {
         } else if let Some((call, e)) = &out.build_err {
             rep.violation(&format!("builder/{}/complete-config-rejected", solver.name()), case(), format!("valid configuration (t1 > t0, 0 < dt_min <= dt_max, tol > 0) rejected by {}: {}", call, e));
         } else {
-            if out.n_err() > 0 {
+            if out.n_err() > 0 && !unbounded {
                 rep.inconclusive("scaled-config-first-items-err(C05)");
             }
             rep.nontrivial(CaseHash::new("c06-scales").u(solver.idx() as u64).f(cfg.t0).f(cfg.t1).f(dt_min).f(dt_max).f(tol).u(opts.order as u64).0);
@@ -690,6 +696,9 @@ pub fn thresholds(ctx: &Ctx, rep: &Report) -> Vec<Threshold> {
     let mut t = vec![];
     for sv in Solver::ALL {
         t.push(Threshold { what: format!("{}: valid configurations whose minimum step is below the spacing of the floats at the start time", sv.name()), required: ctx.tier.pick(300.0, 6_000.0), observed: rep.counter(&format!("{}/scaled_valid_configs_min_step_below_time_resolution", sv.name())) as f64 });
+    }
+    for sv in Solver::ALL {
+        t.push(Threshold { what: format!("{}: valid configurations with an infinite maximum step", sv.name()), required: ctx.tier.pick(80.0, 1_600.0), observed: rep.counter(&format!("{}/scaled_valid_configs_unbounded_maximum_step", sv.name())) as f64 });
     }
     let per_builder = if ctx.tier == Tier::Quick { 460_000.0 } else { 9_000_000.0 };
     for s in Solver::ALL {
